@@ -566,6 +566,9 @@ func (fr *Frame) contractCall(con *Contract, key string, sig *types.Signature, c
 		bind["result"] = TV{Tuple: tvs}
 	}
 	for _, cl := range con.Ensures {
+		if con.Opaque {
+			break // used as an uninterpreted symbol here
+		}
 		if mentionsEvents(cl.Expr, fr.pendingHO) {
 			continue // talks about the callee's own call sites: not visible to callers
 		}
@@ -1144,7 +1147,7 @@ func (fr *Frame) builtinAppend(in ssa.Instruction, com *ssa.CallCommon, st *Stat
 	}
 	newLen := c.sc.define("app_len", c.add(c.slLen(s), tl))
 	inPlace := c.sc.define("app_inplace", c.le(newLen, c.slCap(s)))
-	fresh := c.newRef("app_arr")
+	fresh := c.newRefIn("app_arr", k)
 	freshCap := c.sc.fresh("app_cap", c.sc.idxSort())
 	c.assumeG(and(c.le(newLen, freshCap), c.le(freshCap, c.maxLen())))
 	rp := c.sc.define("app_ptr", ite(inPlace, slPtr(s), fresh))
